@@ -32,9 +32,9 @@ def gen_walk_scripts(ctx, kind, ty, n, rng):
         shapes[nid] = strip_shape(behaviours.parse_state(lab)["t"])
     walks = behaviours.cover_walks(g, max_walk=1500, rng=rng)
     scripts = []
-    for wi, w in enumerate(walks):
-        nf = [1, 3, 0, 2, 1][wi % 5]
-        wd = wi % 2
+    # every walk is run with every notifier configuration (both, key only, value only, none): which notifiers exist changes the code paths
+    for wi, (w, nf) in enumerate([(w_, nf_) for w_ in walks for nf_ in (1, 2, 3, 0)]):
+        wd = (wi // 4 + nf) % 2
         lines = ["reset", "univ %d" % n, "new %d %d %d" % (ty, nf, wd)]
         expect = []
         for si, (lab, dst) in enumerate(w):
